@@ -29,6 +29,7 @@ SCHEMA = f'''<xs:schema {XS} targetNamespace="urn:t" xmlns:t="urn:t" elementForm
       <xs:element name="vals" minOccurs="0"><xs:complexType><xs:simpleContent><xs:extension base="t:ints"><xs:attribute name="unit" type="xs:token"/></xs:extension></xs:simpleContent></xs:complexType></xs:element>
       <xs:element name="mix" minOccurs="0"><xs:complexType mixed="true"><xs:sequence><xs:element name="b" minOccurs="0" maxOccurs="unbounded"><xs:complexType><xs:simpleContent><xs:extension base="xs:string"><xs:attribute name="k" type="xs:int"/></xs:extension></xs:simpleContent></xs:complexType></xs:element></xs:sequence></xs:complexType></xs:element>
       <xs:sequence minOccurs="0" maxOccurs="unbounded"><xs:element name="line" type="xs:int"/><xs:element name="ln" type="xs:token" minOccurs="0"/></xs:sequence>
+      <xs:element name="box" minOccurs="0" maxOccurs="2"><xs:complexType><xs:sequence><xs:element name="box" type="xs:token" form="unqualified"/></xs:sequence><xs:attribute name="k" type="xs:int"/></xs:complexType></xs:element>
       <xs:element name="end" type="xs:token"/>
       <xs:element name="u" type="xs:string" form="unqualified" minOccurs="0"/>
      </xs:sequence><xs:attribute name="id" type="xs:ID" use="required"/><xs:attribute name="w" type="xs:double"/><xs:attribute name="gaps"><xs:simpleType><xs:list itemType="xs:duration"/></xs:simpleType></xs:attribute><xs:attribute name="ver" type="xs:int" fixed="2"/></xs:complexType></xs:element>
@@ -61,6 +62,9 @@ def gen(rng):
         # a repeating group whose first element is followed by an optional one: runs of same-name children that the encoder has to hand back in their own order
         # (the optional second element only after the first occurrence: the dictionary conventions group children by name and cannot place it anywhere else)
         if rng.random() < .5: parts += [f'<t:line>{j + 1}</t:line>' + ('<t:ln>k</t:ln>' if j == 0 and rng.random() < .3 else '') for j in range(rng.randrange(1, 6))]
+        # an element whose only child has the same LOCAL name in another namespace (here: none): the wrapper conventions tell them apart by the qualified name
+        # (not next to the variant of mix that declares a default namespace below the root: with it the unqualified key is read in that namespace - the listed C05 finding)
+        for _ in range(rng.randrange(0, 3) if rng.random() < .4 and not any('<mix xmlns=' in x for x in parts) else 0): parts.append(rng.choice(['<t:box><box>v</box></t:box>', '<t:box k="1"><box>w</box></t:box>']))
         parts.append('<t:end>e</t:end>')
         if rng.random() < .4: parts.append('<u>plain</u>')        # a required particle after the optional ones: data truncated before an optional particle is incomplete
         w = rng.choice(['', ' w="1.5"', ' w="INF"', ' w="1e3"']) + rng.choice(['', '', ' gaps="P1D PT2H"', ' gaps="P1Y"']) + rng.choice([' ver="2"', ' ver="02"'])       # an attribute with a fixed value, always present (an absent one is filled in by decoding), in two lexical forms
@@ -178,7 +182,7 @@ def run(tier, seed, open_findings):
     rng = random.Random(seed); n = 4000 if tier == 'thorough' else 80
     docs = [gen(rng) for _ in range(n)]
     # a namespace declaration on a CHILD of the root (data level 1): variants of the first generated documents
-    L1 = [d.replace('<t:item ', '<t:item xmlns="urn:t" ', 1) for d in docs[:40] if '<u>plain</u>' in d.split('</t:item>', 1)[1] and '<u>plain</u>' not in d.split('</t:item>', 1)[0]][:3]
+    L1 = [d.replace('<t:item ', '<t:item xmlns="urn:t" ', 1) for d in docs[:40] if '<u>plain</u>' in d.split('</t:item>', 1)[1] and '<u>plain</u>' not in d.split('</t:item>', 1)[0] and '<box>' not in d.split('</t:item>', 1)[0]][:3]
     docs = docs + L1
     jobs = [(ver, d, seed * 1000 + i) for i, d in enumerate(docs) for ver in ('1.0', '1.1')]
     res = pmap(eval_doc, jobs)
